@@ -80,6 +80,12 @@ type c40World struct {
 	pmReadMu sync.RWMutex // a pointer refresh never overlaps the shutdown
 	confMu   sync.RWMutex // only used when the API-restart finding is listed as known
 	metMu    sync.RWMutex // only used when the metrics finding is listed as known
+	// writeMu: a fake publisher stands for a session of some protocol server. The Core closes every server (and
+	// waits for its sessions) before it closes the path manager and, last, the logger; so no real session writes a
+	// unit while a global edit tears everything down or after the shutdown. Fake publishers respect the same
+	// precondition: unit writes hold writeMu for reading, global edits and the shutdown hold it for writing.
+	// (Real RTSP publishers of the program keep writing whenever they like.)
+	writeMu  sync.RWMutex
 	stopping atomic.Bool
 	serial   bool
 	metSer   bool
@@ -295,6 +301,8 @@ func (ar *c40ActorRun) exec(w *c40World, s c40Step) string {
 			w.stopping.Store(true)
 			w.pmReadMu.Lock()   // wait for a pointer refresh in progress; later ones see stopping
 			w.pmReadMu.Unlock() //nolint:staticcheck
+			w.writeMu.Lock()    // fake publishers: unit writes in progress finish, later ones see stopping
+			w.writeMu.Unlock()  //nolint:staticcheck
 			if w.metSer {
 				w.metMu.Lock()
 				defer w.metMu.Unlock()
@@ -324,7 +332,13 @@ func (ar *c40ActorRun) execFakePub(w *c40World, s c40Step) string {
 			return "err:no publisher"
 		}
 		for i := 0; i <= s.Arg; i++ {
+			w.writeMu.RLock()
+			if w.stopping.Load() {
+				w.writeMu.RUnlock()
+				return "err:server is shutting down"
+			}
 			ar.curPub.Write("x")
+			w.writeMu.RUnlock()
 		}
 		return "ok"
 	case "detach":
@@ -629,6 +643,8 @@ func (ar *c40ActorRun) execConf(w *c40World, s c40Step) string {
 		}[s.Arg%10]
 		w.globalMu.Lock()
 		defer w.globalMu.Unlock()
+		w.writeMu.Lock()
+		defer w.writeMu.Unlock()
 		if w.metSer {
 			w.metMu.Lock()
 			defer w.metMu.Unlock()
